@@ -135,6 +135,12 @@ theorem step_inv {st : St} (i : Inv st) (op : Op) : Inv (step st op).1 := by
   | sstLoad => exact sstLoad_inv i
   | sstSet => exact (sstLoad_inv i).frame rfl rfl rfl rfl
   | save w s o => exact save_inv i w s o
+  | forget n rels =>
+    have h : Facts.C12.deleteSheetDropsTemp = false := by decide
+    show Inv (forget st n rels)
+    unfold forget
+    simp only [h, Bool.false_eq_true, if_false]
+    exact i.frame rfl rfl rfl rfl
 
 theorem run_inv : ∀ (ops : List Op) {st : St}, Inv st → Inv (run st ops).1
   | [], _, i => i
